@@ -88,6 +88,10 @@ func (rw *LegacyRewrite) normalize() (err error) {
 		log.Debug("normalizing legacy rewrite: %s", err)
 		rw.Type = dns.TypeCNAME
 
+		// The canonical name is compared to the lowercased hosts and domain
+		// patterns, so normalize its case as well.
+		rw.Answer = strings.ToLower(rw.Answer)
+
 		return nil
 	}
 
